@@ -15,6 +15,7 @@
 import EvalFilter.Model.VM
 import EvalFilter.Props.Tables
 import EvalFilter.Proofs.ExprCorrect
+import EvalFilter.Proofs.NoOof
 
 namespace EvalFilter.Props.C01
 open EvalFilter EvalFilter.VM
@@ -264,11 +265,13 @@ example : Str.contains "hello".toList "ell".toList = true := by decide
 open EvalFilter.Exec in
 /-- **Compiler + VM correctness for expressions.**  For every expression of the value-producing fragment
     (literals, identifiers/fields, prefix and binary operators incl. `~=` `in` `..` `.`, index, array
-    literals, hash literals written in the compiler's key order, the ternary - any size, any nesting),
-    the code the compiler emits for it, placed anywhere
-    in a program that fits the 16-bit operand space, computes exactly `evalE`: operands left to right,
-    then the operator of the laws above; the first error ends the run with that error; on success the
-    value is on top of the stack and the VM continues right behind the code. -/
+    literals, hash literals written in the compiler's key order, the ternary, calls of built-in and host
+    functions - any size, any nesting), the code the compiler emits for it, placed anywhere
+    in a program that fits the 16-bit operand space, computes exactly `evalE`: operands and arguments left
+    to right, then the operator of the laws above or the function (whose marker and output are written);
+    the first error ends the run with that error; on success the value is on top of the stack and the VM
+    continues right behind the code.  (`Correct` asks that the semantics defines the outcome: a call of a
+    user-defined function inside an expression, or of a function that yields no value, is where it does not.) -/
 theorem C01_expr_correct (e : Expr) (base : Nat) (cst : Compiler.CState) (r : List Instr × Compiler.CState)
     (hp : pureE e = true) (hc : Compiler.compileExpr e base cst = .ok r) (M : Machine) (obj : HostVal) (code : Bytes)
     (ctx : Ctx M code) (hat : CodeAt code base r.1) (hpool : ∃ ex, M.consts = r.2.consts ++ ex) :
@@ -276,10 +279,34 @@ theorem C01_expr_correct (e : Expr) (base : Nat) (cst : Compiler.CState) (r : Li
   expr_ok e base cst r hp hc M obj code ctx hat hpool
 
 open EvalFilter.Exec in
+/-- … and with no side condition at all for expressions without calls: the semantics defines an outcome for
+    every one of them, in every state -/
+theorem C01_expr_correct_callfree (e : Expr) (base : Nat) (cst : Compiler.CState) (r : List Instr × Compiler.CState)
+    (hp : pureE e = true) (hcf : callFree e = true) (hc : Compiler.compileExpr e base cst = .ok r) (M : Machine) (obj : HostVal) (code : Bytes)
+    (ctx : Ctx M code) (hat : CodeAt code base r.1) (hpool : ∃ ex, M.consts = r.2.consts ++ ex)
+    (stack : List Value) (env : Env) (out : Str) (polls depth : Nat) :
+    ∃ n k, ∀ fuel,
+      loop M obj code (fuel + n) base stack ⟨env, out, polls, depth⟩ =
+        after M obj code fuel (base + e.size) stack env (polls + k) depth (evalE M obj env e out) :=
+  expr_ok e base cst r hp hc M obj code ctx hat hpool stack env out polls depth (evalE_defined M obj env e out hcf)
+
+open EvalFilter.Exec in
 /-- … and for the script `return <expression>;` as `Prepare(NoOptimize)` compiles it: a run ends with
     exactly the value - or exactly the error - of the big-step semantics, having written exactly its
     output, for every host object, environment and host-function table. -/
 theorem C01_return_expr_correct (e : Expr) (hp : pureE e = true) (c : Compiler.Compiled)
+    (hc : Compiler.compileProgram [.ret e] = .ok c) (fns : List (Str × FnImpl)) (obj : HostVal) (env : Env) (out : Str)
+    (polls depth : Nat)
+    (hdef : (evalE (Api.newMachine c false fns (fun _ => false)) obj env e out).1 ≠ .error undefErr) :
+    ∃ n k, ∀ fuel,
+      run (Api.newMachine c false fns (fun _ => false)) obj (fuel + n) ⟨env, out, polls, depth⟩ =
+        (match evalE (Api.newMachine c false fns (fun _ => false)) obj env e out with
+         | (.ok v, o) => (.ok v, ⟨env, o, polls + k, depth⟩)
+         | (.error x, o) => (.error x, ⟨env, o, polls + k, depth⟩)) :=
+  return_expr_correct e hp c hc fns obj env out polls depth hdef
+
+open EvalFilter.Exec in
+theorem C01_return_expr_correct_callfree (e : Expr) (hp : pureE e = true) (hcf : callFree e = true) (c : Compiler.Compiled)
     (hc : Compiler.compileProgram [.ret e] = .ok c) (fns : List (Str × FnImpl)) (obj : HostVal) (env : Env) (out : Str)
     (polls depth : Nat) :
     ∃ n k, ∀ fuel,
@@ -287,6 +314,6 @@ theorem C01_return_expr_correct (e : Expr) (hp : pureE e = true) (c : Compiler.C
         (match evalE (Api.newMachine c false fns (fun _ => false)) obj env e out with
          | (.ok v, o) => (.ok v, ⟨env, o, polls + k, depth⟩)
          | (.error x, o) => (.error x, ⟨env, o, polls + k, depth⟩)) :=
-  return_expr_correct e hp c hc fns obj env out polls depth
+  return_expr_correct e hp c hc fns obj env out polls depth (evalE_defined _ obj env e out hcf)
 
 end EvalFilter.Props.C01
